@@ -125,10 +125,38 @@ def gen(g, count, reps):
     return cases
 
 
+def differs_across_processes(ctx, c, n=16):
+    """the property speaks of runs of the program: repeat the invocation as separate processes of the untagged binary"""
+    from .. import core
+    outs = set()
+    for _ in range(n):
+        try:
+            rc, out, err = core.run_real_binary(ctx.real(), c.argv(), c.files, tz=c.tz, stable_dir=True)
+        except Exception:
+            return True          # cannot be run from outside (a name that is no file name): keep the in-process verdict
+        outs.add((rc, out, re.sub(rb'(?m)^\d{4}/\d\d/\d\d \d\d:\d\d:\d\d ', b'', err)))
+        if len(outs) > 1:
+            return True
+    return False
+
+
 def judge(ctx, cases, impl):
+    verdict = {}         # command -> do separate processes differ too? (decided on the first two cases of that command)
     for c in cases:
         i = impl[c.id]
         if i.get('distinct', 1) != 1:
+            # repeated runs inside one process differ.  Map order shows in separate processes too; state carried from one run to
+            # the next inside the driver's process does not, and the program runs once per process.
+            kind = c.meta['kind']
+            seen = verdict.setdefault(kind, [])
+            if len(seen) < 2 and not c.cfg and not c.env:
+                seen.append(differs_across_processes(ctx, c))
+            if seen and not any(seen):
+                if True:
+                    ctx.problem('corr', 'repeated runs of `%s` inside one process differ, 16 separate runs of the program agree: something is carried from one run to the next '
+                                'inside the process (the in-process driver is then no faithful observer of the program; the property is not shown to fail)' % c.meta['kind'], c,
+                                {'first': summarize(i), 'other': summarize(i.get('other') or {})})
+                    continue
             ctx.problem('oracle', 'identical invocations of `%s` produce different results' % c.meta['kind'], c,
                         {'first': summarize(i), 'other': summarize(i.get('other') or {})}, signature='nondeterministic:' + c.meta['kind'].split(' desc')[0])
 
